@@ -119,6 +119,47 @@ func corpus() []scenario {
 		rv, rv,
 		st(v, "d 106 c001 r 106 c002"),
 	}
+	// a block that lists the same Cairo-0 class twice (DeclaredV0Classes is a slice), then its
+	// revert: the new backend reverts, the legacy backend cannot (C04's business; here: the
+	// model follows, and the refused revert must not change any read)
+	c0b := hx(&cairo0Fxs[1])
+	listedTwice := []Step{
+		st(v, "d 104 c000 sa 104 sk 2 5"),
+		st(v, "c0 "+c0b+" c0 "+c0b+" sa 104 sk 2 6 sk 3 1 n 104 1"),
+		st(v, ""),
+		rv,
+		rv,
+	}
+	// the definition of a Sierra class is supplied for a deployed contract (no declaration), a
+	// later block declares the class; reverting that block fails on the new backend
+	laterDecl := []Step{
+		st("0.13.4", "d 104 "+hx(&s0.hash)+" x "+hx(&s0.hash)+" sa 104 sk 2 5"),
+		st("0.13.4", "c1 "+hx(&s0.hash)+" "+hx(&s0.casm1)+" "+hx(&s0.casm2)+" sa 104 sk 2 6"),
+		rv,
+	}
+	// a CASM migration that carries another hash than the one juno computed itself
+	foreignMig := []Step{
+		st("0.13.4", "c1 "+hx(&s0.hash)+" "+hx(&s0.casm1)+" "+hx(&s0.casm2)),
+		st("0.14.1", "m "+hx(&s0.hash)+" abc"),
+		st("0.14.1", ""),
+		rv,
+		rv,
+		st("0.14.1", "m "+hx(&s0.hash)+" "+hx(&s0.casm2)),
+	}
+	// blocks a guard must reject, one guard each, between accepted blocks
+	invalid := []Step{
+		st("0.13.4", "d 104 c000 sa 104 sk 2 5 sk 3 6 c1 "+hx(&s0.hash)+" "+hx(&s0.casm1)+" "+hx(&s0.casm2)),
+		dis("store-invalid", "0.13.4", "d 104 c001 sa 104 sk 2 0"),
+		dis("store-invalid", "0.13.4", "r 107 c002 sa 104 sk 2 0"),
+		dis("store-invalid", "0.13.4", "n 107 3 sa 104 sk 3 0"),
+		dis("store-invalid", "0.13.4", "sa 107 sk 2 7 sa 104 sk 2 0 sk 3 0"),
+		st("0.14.1", "m "+hx(&s0.hash)+" "+hx(&s0.casm2)+" c1 "+hx(&s1.hash)+" "+hx(&s1.casm2)+" "+hx(&s1.casm2)),
+		dis("store-invalid", "0.14.1", "m "+hx(&s0.hash)+" "+hx(&s0.casm2)+" sa 104 sk 2 0"),
+		dis("store-invalid", "0.14.1", "m "+hx(&s1.hash)+" "+hx(&s1.casm2)+" sa 104 sk 3 0"),
+		dis("store-invalid", "0.14.1", "d 104 c003"),
+		st("0.14.1", "sa 104 sk 2 0"),
+		rv,
+	}
 	var out []scenario
 	add := func(name string, srcNew bool, dst []bool, drainOK bool, steps []Step) {
 		out = append(out, scenario{cfg: Config{Name: name, SrcNew: srcNew, Dst: dst, AllowDrain: drainOK}, steps: steps})
@@ -132,6 +173,14 @@ func corpus() []scenario {
 	add("discarded/src-legacy", false, both, false, discarded)
 	add("discarded/src-new", true, both, false, discarded)
 	add("deploy-and-replace-in-one-diff", false, both, false, deployReplace)
+	add("class-listed-twice/src-new", true, both, false, listedTwice)
+	add("class-listed-twice/src-legacy", false, both, false, listedTwice[:4])
+	add("declared-after-registered-for-deployed/src-new", true, both, false, laterDecl)
+	add("declared-after-registered-for-deployed/src-legacy", false, both, false, laterDecl)
+	add("migration-with-a-foreign-hash/src-legacy", false, both, false, foreignMig)
+	add("migration-with-a-foreign-hash/src-new", true, both, false, foreignMig)
+	add("rejected-blocks/src-legacy", false, both, false, invalid)
+	add("rejected-blocks/src-new", true, both, false, invalid)
 	add("drain/new", true, []bool{true}, true, drain)
 	add("drain/legacy", false, []bool{false}, true, drain)
 	add("drain-revert/new", true, []bool{true}, true, drainRevert)
